@@ -122,11 +122,9 @@ class SpreadStepSizesBlockwiseNonMPI(SpreadStepSizesBlockwise):
 
         spread_from_step, restart_at = self.get_step_from_which_to_spread(MS, S)
 
-        # Compute the maximum allowed step size based on Tend.
-        dt_all = [0.0] + [me.dt for me in MS if not me.status.first]
-        dt_max = (
-            (Tend - time[restart_at] - dt_all[restart_at]) / size if self.params.overwrite_to_reach_Tend else np.inf
-        )
+        # Compute the maximum allowed step size based on Tend. The controller has already stored the start of the next
+        # block as the time of the first step.
+        dt_max = (Tend - time[MS[0].status.slot]) / size if self.params.overwrite_to_reach_Tend else np.inf
 
         # record the step sizes to restart with from all the levels of the step
         new_steps = [None] * len(S.levels)
